@@ -28,6 +28,8 @@ def stmtReqs : Stmt → List (Str × Option Str)
   | .imp _ _ (.path pkg ver _) => [(pkg, ver)]
   | .imp _ _ (.func _) => []
   | .imp _ _ (.iface _) => []
+  | .imp _ _ (.ident _) => []
+  | .iface _ _ => []
   | .bind _ e => exprReqs e
   | .exp e _ => exprReqs e
 
@@ -108,9 +110,11 @@ theorem evalStmt_agree (lib lib' : Lib) (self : Str) (st : St) (s : Stmt) (h : A
     cases ty with
     | func sig => rfl
     | iface fs => rfl
+    | ident x => rfl
     | path pkg ver segs =>
       have : lib.find pkg ver = lib'.find pkg ver := h (pkg, ver) (by simp [stmtReqs])
       simp only [importKind, pathKind, this]
+  | iface id funcs => rw [evalStmt, evalStmt]
   | bind id e =>
     rw [evalStmt, evalStmt, evalExpr_agree lib lib' self e st h]
   | exp e opt =>
